@@ -45,6 +45,13 @@ Theorem C18_unsafe_impls_are_bounded : dataptr_send_if_t_send = true /\ dataptr_
   iterators_borrow_archetype_mutably = true.
 Proof. repeat split. Qed.
 
+(** The only transmutes of the runtime crate are the four reference-to-reference handle conversions of
+    entity.rs, and each ties the lifetime of the reference it returns to the one it was given (a
+    conversion with an elided output lifetime would let safe code keep a handle reference across a
+    structural change, or hold two live `&mut` to one handle: corpus pairs 17 and 18). *)
+Theorem C18_reference_conversions_tie_lifetimes : ref_conversions_tie_lifetimes = true.
+Proof. reflexivity. Qed.
+
 (** can_spell is not vacuous: it does recognise spellings. *)
 Example C18_can_spell_examples :
   can_spell "{}" "unsafe" = true /\ can_spell "un{}" "unsafe" = true /\ can_spell "{}Components" "unsafe" = false /\
